@@ -106,6 +106,15 @@ template<typename T>
 using rlbox_get_wrapper_sandbox_t =
   typename detail_rlbox_remove_wrapper::unwrapper<T>::type_sbx;
 
+// Is T a tainted/tainted_volatile/tainted_opaque/sandbox_callback wrapper that
+// belongs to a sandbox type other than T_Sbx? (false for anything else)
+template<typename T, typename T_Sbx>
+constexpr bool rlbox_is_wrapper_of_other_sandbox_v =
+  rlbox_is_wrapper_v<std::remove_cv_t<std::remove_reference_t<T>>> &&
+  !std::is_same_v<
+    rlbox_get_wrapper_sandbox_t<std::remove_cv_t<std::remove_reference_t<T>>>,
+    T_Sbx>;
+
 template<typename T, typename T_Sbx>
 using rlbox_tainted_opaque_to_tainted_t =
   std::conditional_t<rlbox_is_tainted_opaque_v<T>,
